@@ -150,6 +150,7 @@ pub fn run() -> i32 {
                                 vec![op], vec![k0], vec![k1], vec![k2],
                                 p.to_le_bytes().to_vec(), q.to_le_bytes().to_vec(), 7i64.to_le_bytes().to_vec(),
                                 vec![*b as u8], vec![c as u8], vec![1],
+                                vec![(pi as u8 + k0) % 4], vec![(pi as u8 + k1 + 1) % 4], vec![(k2 + op) % 4],
                             ];
                             crate::sym::load(vals);
                             let r = std::panic::catch_unwind(|| crate::node::c06_node());
@@ -192,6 +193,16 @@ pub fn run() -> i32 {
                             eprintln!("SELFTEST-FAIL: c11_fold reference trace disagrees with the evaluator: n={} fail={} conds={}", nn, fail, conds);
                         }
                     }
+                }
+            }
+        }
+        for t in 0..=6u8 {
+            for k in 0..=5u8 {
+                crate::sym::load(vec![vec![t], vec![k]]);
+                n += 1;
+                if std::panic::catch_unwind(|| crate::node::c20_conversion()).is_err() {
+                    c11_bad += 1;
+                    eprintln!("SELFTEST-FAIL: c20_conversion reference disagrees with the implementation: target={} kind={}", t, k);
                 }
             }
         }
